@@ -31,7 +31,11 @@ class Rng:
     """SplitMix64; every random choice of a run derives from VERIF_SEED through one of these."""
 
     def __init__(self, seed):
-        self.s = (int(seed) * 0x9E3779B97F4A7C15 + 0x1234567) & 0xFFFFFFFFFFFFFFFF
+        # the seed is hashed first: with s0 = seed·γ the streams of consecutive seeds would be one-step shifts of each other
+        z = (int(seed) + 0x1234567) & 0xFFFFFFFFFFFFFFFF
+        z = ((z ^ (z >> 30)) * 0xBF58476D1CE4E5B9) & 0xFFFFFFFFFFFFFFFF
+        z = ((z ^ (z >> 27)) * 0x94D049BB133111EB) & 0xFFFFFFFFFFFFFFFF
+        self.s = (z ^ (z >> 31)) & 0xFFFFFFFFFFFFFFFF
 
     def u64(self):
         self.s = (self.s + 0x9E3779B97F4A7C15) & 0xFFFFFFFFFFFFFFFF
